@@ -103,8 +103,8 @@ def engine_classes():
             success, status = False, "program ended"
             for i, (op, c, vp) in enumerate(frames):
                 contents.append(c)
-                snap = {"order": [float(op)], "config": (traj_file, i), "vel_rev": reverse,
-                        "vpot": vp, "ekin": 0.0}
+                snap = {"order": [float(op), 7.5], "config": (traj_file, i), "vel_rev": reverse,
+                        "vpot": None if vp is None else float(vp), "ekin": 0.0}
                 pp = self.snapshot_to_system(system, snap)
                 status, success, stop, _ = self.add_to_path(path, pp, left, right)
                 if stop:
@@ -200,10 +200,14 @@ def dw_step(a, k, c):
 
 
 def tok_num(x):
-    if x == float("-inf"):
-        return str(NEG)
-    assert float(x) == int(x), x
-    return str(int(x))
+    try:
+        if x == float("-inf"):
+            return str(NEG)
+        if float(x) == int(x):
+            return str(int(x))
+    except Exception:  # noqa: BLE001  (changed code may hand over anything: never crash the harness)
+        pass
+    return "?" + repr(x).replace(" ", "")
 
 
 class OneDraw:
@@ -279,23 +283,64 @@ def fl(x):
     return float("-inf") if x == NEG else float(x)
 
 
-def start_cond(sc):
+def start_cond(sc, form=0):
+    """the same set of allowed start sides in the representations configs / tests use"""
     L, R = sc
     if L and R:
-        return ["L", "R"]
+        return (["L", "R"], ("R", "L"), "LR", ["R", "L"])[form % 4]
     if R:
-        return "R"
+        return ("R", ("R",), ["R"], "R")[form % 4]
     if L:
-        return "L"
-    return ()
+        return ("L", ("L",), ["L"], "L")[form % 4]
+    return ((), [], "", ())[form % 4]
+
+
+def ens_state(picked):
+    """everything in `picked` a zero swap must not change: the ens_set dicts (deep, without the generator object),
+    which objects sit where"""
+    import copy
+    out = {}
+    for key in (-1, 0):
+        ent = picked[key]
+        out[f"{key}.keys"] = sorted(ent.keys())
+        out[f"{key}.traj"] = id(ent["traj"])
+        out[f"{key}.rgen"] = id(ent["ens"].get("rgen"))
+        for kk, v in ent["ens"].items():
+            if kk != "rgen":
+                out[f"{key}.ens.{kk}"] = copy.deepcopy(v)
+    return out
+
+
+def aliasing(new_paths, old_paths):
+    """the new paths must be built from copies: no frame object (and no frame LIST) shared with an old path or with
+    each other, so that a later move that edits one cannot corrupt the other"""
+    seen = {}
+    for nm, p in (("old[0-]", old_paths[0]), ("old[0+]", old_paths[1])):
+        seen[id(p.phasepoints)] = nm + " frame list"
+        for i, fr in enumerate(p.phasepoints):
+            seen[id(fr)] = f"{nm}.phasepoints[{i}]"
+    if new_paths[0] is new_paths[1]:
+        return None          # quantis returns [tmp_path1, tmp_path1] on QEA (a rejection; mirrored in the model)
+    for nm, p in (("new[0-]", new_paths[0]), ("new[0+]", new_paths[1])):
+        if id(p.phasepoints) in seen:
+            return f"{nm} shares its frame list with {seen[id(p.phasepoints)]}"
+        for i, fr in enumerate(p.phasepoints):
+            if id(fr) in seen:
+                return f"{nm}.phasepoints[{i}] is the same object as {seen[id(fr)]}"
+            seen[id(fr)] = f"{nm}.phasepoints[{i}]"
+    return None
 
 
 def played_scripts(c, eng0, eng1):
     """for the velocity-order engine: the frame streams it produced, in the model's script order"""
     if c.get("engine") != "vel":
         return None
-    p0, p1 = list(eng0.played), list(eng1.played)
     empty = (None, [])
+    if eng0 is eng1:         # one engine object serves both ensembles: streams in call order = script order
+        pl = list(eng0.played)
+        n = 2 if c["kind"] == "retis" else 4
+        return (pl + [empty] * n)[:n]
+    p0, p1 = list(eng0.played), list(eng1.played)
     if c["kind"] == "retis":
         return [p0[0] if p0 else empty, p1[0] if p1 else empty]
     return [p0[0] if p0 else empty, p1[0] if p1 else empty, p0[1] if len(p0) > 1 else empty, p1[1] if len(p1) > 1 else empty]
@@ -353,15 +398,19 @@ class World:
                 for it in os.scandir(d):
                     os.unlink(it.path)
 
-    def mk_path(self, fs, name, frames, maxlen=100000):
+    def mk_path(self, fs, name, frames, maxlen=100000, int_orders=False):
         p = self.Path(maxlen=maxlen)
+        p.path_number = 0 if name == "old0" else 1       # path number 0 is a valid path
+        p.generated = ("ld", float("nan"), 0, 0)
         cont = []
         for k, (op, c, vr, vp) in enumerate(frames):
             s = self.System()
-            s.order = [float(op)]
+            # a second, unrelated collective variable rides along (multi-column order parameter)
+            s.order = [int(op), 7] if int_orders else [float(op), 7.5]
             s.config = (name, k)
             s.vel_rev = bool(vr)
-            s.vpot = vp
+            s.vpot = None if vp is None else float(vp)   # engines report floats; 0.0 is a valid energy
+            s.ekin = 0.0
             p.phasepoints.append(s)
             cont.append(tuple(c))
         fs[name] = cont
@@ -370,9 +419,21 @@ class World:
     def read_path(self, fs, p):
         out = []
         for s in p.phasepoints:
-            c = fs[s.config[0]][s.config[1]] if s.config[0] in fs else ("missing-file", 0)
-            out.append((int(s.order[0]) if float(s.order[0]) == int(s.order[0]) else s.order[0], tuple(c),
-                        bool(s.vel_rev), s.vpot))
+            try:
+                c = tuple(fs[s.config[0]][s.config[1]])
+            except Exception:  # noqa: BLE001
+                c = ("missing-file", 0)
+            try:
+                op = int(s.order[0]) if float(s.order[0]) == int(s.order[0]) else s.order[0]
+            except Exception:  # noqa: BLE001
+                op = "?" + repr(s.order).replace(" ", "")
+            vp = s.vpot
+            try:
+                if vp is not None and float(vp) == int(vp):
+                    vp = int(vp)
+            except Exception:  # noqa: BLE001
+                vp = "?" + repr(vp).replace(" ", "")
+            out.append((op, c, bool(s.vel_rev), vp))
         return out
 
     def picked(self, c, old0, old1, rgen):
@@ -381,19 +442,48 @@ class World:
             if e["cap"] is not None:
                 ts["interface_cap"] = float(e["cap"])
             return {"interfaces": tuple(fl(x) for x in e["i"]), "tis_set": ts,
-                    "mc_move": "wf" if e["wf"] else "sh", "start_cond": start_cond(e["sc"]),
+                    "mc_move": "wf" if e["wf"] else "sh", "start_cond": start_cond(e["sc"], c.get("sc_form", 0)),
                     "rgen": rgen, "ens_name": name}
         aa = bool(c.get("aa", False))
         return {-1: {"ens": ens(c["e0"], "000", aa), "traj": old0}, 0: {"ens": ens(c["e1"], "001", aa), "traj": old1}}
 
-    def run(self, c, fs=None, old_paths=None, dirk=0):
-        """returns dict(err=..) or dict(accept,status,st0,st1,w0,w1,draws,ea,p,path0,path1,reqs,same)"""
+    def run(self, c, fs=None, old_paths=None, dirk=0, live=None):
+        """returns dict(err=..) or dict(accept,status,st0,st1,w0,w1,draws,ea,p,path0,path1,reqs,same).
+        `live`: dict kept by the caller over a SEQUENCE of calls: the engine objects (and, if the settings do not
+        change, the ens_set dicts) of the first call are reused instead of fresh ones."""
+        try:
+            return self._run(c, fs, old_paths, dirk, live)
+        except Exception as e:  # noqa: BLE001  a harness exception must not hide a violation (exit 2): report the input
+            import traceback
+            return {"err": "harness:" + type(e).__name__, "reqs": [], "mutated": None, "olds": (None, None), "played": None,
+                    "harness_exc": traceback.format_exc()[-600:]}
+
+    def _run(self, c, fs, old_paths, dirk, live):
         E = engine_classes()
         self.sweep()
         fs = {} if fs is None else fs
         log = []
         d = self.dirs[dirk]
-        if c.get("engine") == "vel":
+        if live is not None and "eng" in live:
+            eng0, eng1 = live["eng"]
+            fs = eng0.fs
+            log = eng0.log
+            del log[:]
+            for e_ in {id(eng0): eng0, id(eng1): eng1}.values():
+                e_._exe_dir = d
+                if hasattr(e_, "played"):
+                    e_.played = []
+            if c["kind"] in ("retis", "quantis") and c.get("engine") != "vel":
+                if eng0 is eng1:
+                    eng0.scripts = list(c["scripts"])            # popped in call order
+                    if c["kind"] == "quantis":
+                        eng0._beta = float(c["beta0"])
+                elif c["kind"] == "retis":
+                    eng0.scripts, eng1.scripts = [c["scripts"][0]], [c["scripts"][1]]
+                else:
+                    eng0.scripts, eng1.scripts = [c["scripts"][0], c["scripts"][2]], [c["scripts"][1], c["scripts"][3]]
+                    eng0._beta, eng1._beta = float(c["beta0"]), float(c["beta1"])
+        elif c.get("engine") == "vel":
             eng0 = E["V"](0, fs, log, d, c["a"], c["k"], c["n"])
             eng1 = E["V"](1, fs, log, d, c["a"], c["k"], c["n"])
         elif c["kind"] == "retisdet":
@@ -405,20 +495,41 @@ class World:
         else:
             eng0 = E["S"](0, fs, log, [c["scripts"][0], c["scripts"][2]], d, beta=float(c["beta0"]))
             eng1 = E["S"](1, fs, log, [c["scripts"][1], c["scripts"][3]], d, beta=float(c["beta1"]))
+        if live is not None and "eng" not in live:
+            if live.get("shared"):
+                eng1 = eng0
+                eng0.eid = 0
+                if c["kind"] in ("retis", "quantis") and c.get("engine") != "vel":
+                    eng0.scripts = list(c["scripts"])
+            live["eng"] = (eng0, eng1)
         if old_paths is None:
-            old0 = self.mk_path(fs, "old0", c["old0"])
-            old1 = self.mk_path(fs, "old1", c["old1"])
+            old0 = self.mk_path(fs, "old0", c["old0"], maxlen=(None if c.get("old_maxlen_none") else 100000),
+                                int_orders=bool(c.get("int_orders")))
+            old1 = self.mk_path(fs, "old1", c["old1"], int_orders=bool(c.get("int_orders")))
         else:
             old0, old1 = old_paths
         rgen = OneDraw(float(c["xi"]))
         picked = self.picked(c, old0, old1, rgen)
+        if live is not None:
+            if "ens" in live:      # the very same ens_set dicts as in the previous calls of the sequence
+                for key, ens_ in zip((-1, 0), live["ens"]):
+                    ens_["rgen"] = rgen
+                    ens_["tis_set"]["accept_all"] = picked[key]["ens"]["tis_set"]["accept_all"]
+                    picked[key]["ens"] = ens_
+            elif live.get("keep_ens"):
+                live["ens"] = (picked[-1]["ens"], picked[0]["ens"])
         engines = {-1: [eng0], 0: [eng1]}
+        ens_before = ens_state(picked)
         eng0.old_ids = eng1.old_ids = {id(fr) for fr in old0.phasepoints} | {id(fr) for fr in old1.phasepoints}
         snap = (snapshot(old0), snapshot(old1))
         old_files = {fr.config[0] for fr in old0.phasepoints} | {fr.config[0] for fr in old1.phasepoints}
         fs_before = {f: list(fs[f]) for f in old_files if f in fs}
 
         def mutated():
+            after = ens_state(picked)
+            if after != ens_before:
+                keys = [k for k in ens_before if after.get(k) != ens_before[k]]
+                return f"picked / ens_set changed: {keys[:3]} {[(ens_before[k], after.get(k)) for k in keys[:2]]}"
             return (snapshot_diff(snap[0], snapshot(old0), fs_before, fs, "old[0-]")
                     or snapshot_diff(snap[1], snapshot(old1), {}, fs, "old[0+]"))
         self.proxy.exp_log.clear()
@@ -444,6 +555,7 @@ class World:
             "reqs": list(log), "same": paths[0] is old0 and paths[1] is old1, "objs": paths,
             "nexp": len(self.proxy.exp_log), "mutated": mutated(), "olds": (old0, old1),
             "played": played_scripts(c, eng0, eng1),
+            "aliased": None if (paths[0] is old0 and paths[1] is old1) else aliasing(paths, (old0, old1)),
         }
 
 
@@ -543,6 +655,32 @@ def ens(i, maxlen, sc, wf=False, cap=None):
     return {"i": tuple(i), "maxlen": maxlen, "sc": tuple(sc), "wf": wf, "cap": cap}
 
 
+def shift_case(c, d):
+    """translate every order value and interface by d (λ₋₁ = -3 becomes 0.0: a falsy but valid interface)"""
+    def sh_e(e):
+        return dict(e, i=tuple(x if x == NEG else x + d for x in e["i"]), cap=None if e["cap"] is None else e["cap"] + d)
+    c = dict(c)
+    c["e0"], c["e1"] = sh_e(c["e0"]), sh_e(c["e1"])
+    c["old0"] = [(f[0] + d,) + tuple(f[1:]) for f in c["old0"]]
+    c["old1"] = [(f[0] + d,) + tuple(f[1:]) for f in c["old1"]]
+    c["scripts"] = [(v0, [(g[0] + d,) + tuple(g[1:]) for g in rest]) for (v0, rest) in c["scripts"]]
+    c["tag"] = c["tag"] + "+shift"
+    return c
+
+
+def decorate(rng, c):
+    """configuration classes the repo's tests never use, spread over the seeded cases"""
+    if rng.random() < 0.5:
+        c["sc_form"] = rng.randint(0, 3)
+    if rng.random() < 0.1:
+        c["int_orders"] = True
+    if rng.random() < 0.1:
+        c["old_maxlen_none"] = True
+    if c["e0"]["i"][0] == -3 and rng.random() < 0.3:
+        c = shift_case(c, 3)
+    return c
+
+
 def retis_cases(ctx):
     rng = ctx.rng
     quick = ctx.quick
@@ -582,6 +720,7 @@ def retis_cases(ctx):
                                       "e0": ens(i0, m0, sc), "e1": ens(i1, m1, (True, False)),
                                       "old0": mk_old0([1], a, b), "old1": mk_old1(-1, 1, [4]),
                                       "scripts": [good_bw, mk_script(fw, 400, 1)], "xi": Fraction(1, 2)})
+    cases = [shift_case(c, 3) if (c["e0"]["i"][0] == -3 and k % 7 == 3) else c for k, c in enumerate(cases)]
     # the witness of Infretis.C11.swap_members_maxlen_counterexample (maxlen0 > maxlen1; cannot come from a
     # configuration file): accepted although the new [0-] path starts left of λ0
     z = lambda o, vr=False: (o, (0, 0), vr, None)  # noqa: E731
@@ -623,9 +762,9 @@ def retis_cases(ctx):
         e1 = ens(i1, m1, (True, False), wf1, cap)
         if rng.random() < 0.03:
             e0["i"] = (1, 0, 0)    # interfaces[0] > interfaces[-1]: assertion in get_end_point
-        cases.append({"kind": "retis", "tag": "random", "e0": e0, "e1": e1, "old0": old0, "old1": old1,
+        cases.append(decorate(rng, {"kind": "retis", "tag": "random", "e0": e0, "e1": e1, "old0": old0, "old1": old1,
                       "scripts": [mk_script(bw, 300, padb, v0=rng.choice((0, None))), mk_script(fw, 400, padf)],
-                      "xi": Fraction(rng.randint(0, 63), 64)})
+                      "xi": Fraction(rng.randint(0, 63), 64)}))
     return cases
 
 
@@ -673,7 +812,7 @@ def quantis_cases(ctx):
         base = {"kind": "quantis", "tag": "quantis-" + ("structured" if structured else "malformed"),
                 "e0": ens(i0, m0, sc), "e1": ens(i1, m1, (True, False)), "old0": old0, "old1": old1,
                 "scripts": scripts, "beta0": beta0, "beta1": beta1, "aa": False, "xi": Fraction(1, 2)}
-        cases.append(base)
+        cases.append(decorate(rng, base))
     return cases
 
 
@@ -880,6 +1019,17 @@ def check_case(ctx, c, r):
                          f"frame {f}: order value {f[0]} but its physical phase point {phys(f)} has 2x+v = "
                          f"{2 * phys(f)[0] + phys(f)[1]} (calculate_order must use -v for vel_rev frames, cf. C20/C12)", rep)
                 break
+    if r.get("harness_exc"):
+        ctx.fail("C11:output-not-interpretable", "the harness could not interpret what the zero swap returned for this input "
+                 "(changed code?): " + r["harness_exc"], rep)
+        return "harness-exception"
+    if r.get("aliased"):
+        ctx.fail("C11:new-path-aliases-old-frame", f"{r['aliased']} — the new paths must be built from copies (C09: a later "
+                 f"move on one path must not corrupt the other)", rep)
+    if c["kind"] == "quantis" and "err" not in r and r["status"] == "QNE" and len(c["old0"]) >= 2 and c["old1"] \
+            and c["old0"][-2][3] is not None and c["old1"][0][3] is not None:
+        ctx.fail("C11:quantis-energies-present-but-QNE", f"both shooting points carry energies ({c['old0'][-2][3]}, {c['old1'][0][3]}; "
+                 f"0.0 is an energy) but the swap was rejected as 'QNE'", rep)
     stale = [q for q in r.get("reqs", []) if q.endswith(":OLD")]
     if stale:
         ctx.fail("C11:old-frame-handed-to-engine",
@@ -977,7 +1127,7 @@ def has_cases(ctx, W):
     out = []
     n = 700 if ctx.quick else 12000
     for _ in range(n):
-        cap = rng.choice((3, 3, 3, 2, 4, None))
+        cap = rng.choice((3, 3, 3, 2, 4, None, 0, 1, 5))   # incl. cap == λ0 (0.0!), == middle, == λN
         wf0 = rng.random() < 0.2
         e0 = ens((NEG, 0, 0), 30, (False, True), wf0, cap)
         e1 = ens((0, 1, 5), 30, (True, False), True, cap)
@@ -1007,6 +1157,7 @@ def has_cases(ctx, W):
             fp = Fraction(p).limit_denominator(10 ** 6)   # the rational ratio of the (small integer) weights
             if float(fp) == p and fp.denominator & (fp.denominator - 1) == 0 and 0 <= fp < 1:
                 xs.add(fp)      # ξ = ratio exactly, only where the float ratio is exact (strict <: rejected)
+        xs.add(Fraction(0))     # random() can return exactly 0.0
         if p_cap != p_last:
             xs.add((Fraction(p_cap) + Fraction(p_last)) / 2 if 0 <= (Fraction(p_cap) + Fraction(p_last)) / 2 < 1 else Fraction(1, 2))
         for x in sorted(xs):
@@ -1050,6 +1201,112 @@ def after_rejection(ctx, W, c, r, fs):
     return True
 
 
+def norm_eid(line):
+    """request lines with the engine number blanked (one shared engine object serves both ensembles)"""
+    import re
+    return re.sub(r"\b([PD]):[01]:", r"\1:*:", line)
+
+
+class LongLived:
+    """(a) object state / call history: ONE pair of engine objects — distinct, and one object shared by [0-] and
+    [0+] — reused over a sequence of unrelated cases in the same exe_dir (scratch file names such as second.sc are
+    rewritten with different content every time); each result must equal the fresh-object result"""
+
+    def __init__(self):
+        self.lives = [{"shared": False}, {"shared": True}]
+        self.n = 0
+
+    def check(self, ctx, W, c, r_fresh):
+        if c.get("engine") == "vel" or c["kind"] not in ("retis", "quantis"):
+            return
+        live = self.lives[self.n % 2]
+        if live["shared"] and c["kind"] == "quantis" and c["beta0"] != c["beta1"]:
+            live = self.lives[0]     # one engine object has one temperature
+        self.n += 1
+        if "eng" in live and type(live["eng"][0]).__name__ != "ScriptedEngine":
+            return
+        r = W.run(c, live=live)
+        a, b = code_line(r), code_line(r_fresh)
+        if live["shared"]:
+            a, b = norm_eid(a), norm_eid(b)
+        ctx.count(1, branch="long-lived-engine:" + ("shared" if live["shared"] else "distinct"))
+        if a != b:
+            ctx.fail("C11:result-depends-on-engine-history",
+                     f"with engine objects that already served {self.n - 1} other swaps ({'one object for both ensembles' if live['shared'] else 'two objects'}) "
+                     f"the swap gives [{a[:150]}], with fresh engines [{b[:150]}]", {k: c[k] for k in c if k != "tag"})
+        check_case(ctx, c, r)
+
+
+def sequence_block(ctx, W):
+    """(a)+(b) the same engine objects AND the same ens_set dicts over: swap, swap back, swap again, then a QuanTIS swap;
+    engines distinct / one shared object; every step compared with fresh engines + fresh dicts on the same input;
+    finally mutate the results and look at the sources"""
+    cases = [c for c in det_cases(ctx)][: (120 if ctx.quick else 1500)]
+    vel = [c for c in vel_cases(ctx) if c["kind"] == "retis"][: (60 if ctx.quick else 600)]
+    for k, c in enumerate(cases + vel):
+        rep = strip(c)
+        live = {"shared": k % 2 == 1, "keep_ens": True}
+        fs = {}
+        olds = None
+        cur = dict(c)
+        hist = []
+        for stepno, kind in enumerate(("retis", "retis", "retis", "quantis")):
+            cc = dict(cur, kind=("retisdet" if (kind == "retis" and c.get("engine") != "vel") else kind))
+            if kind == "quantis":
+                cc.update(kind="quantis", aa=False, beta0=Fraction(1), beta1=Fraction(1), xi=Fraction(0))
+                if c.get("engine") != "vel":
+                    cc["engine"] = "det-as-quantis"
+            if olds is None:
+                olds = (W.mk_path(fs, "old0", c["old0"]), W.mk_path(fs, "old1", c["old1"]))
+            # accepted paths are moved to storage between moves in a real run; here: the move's scratch directory
+            # alternates, so that a move never overwrites the files its input paths point to
+            r_f = W.run(cc, fs=fs, old_paths=olds, dirk=0) if cc.get("engine") != "det-as-quantis" else None
+            if cc.get("engine") == "det-as-quantis":
+                break       # the plain reversible engine has no quantis wiring; the vel engine covers the 4th step
+            r_l = W.run(cc, fs=fs, old_paths=olds, dirk=1 + stepno % 2, live=live)
+            a, b = code_line(r_l), code_line(r_f)
+            if live["shared"]:
+                a, b = norm_eid(a), norm_eid(b)
+            ctx.count(1, branch=f"sequence:step{stepno}:{r_l.get('status', r_l.get('err'))}")
+            if a != b:
+                ctx.fail("C11:result-depends-on-engine-history",
+                         f"step {stepno} ({kind}) of swap/swap-back/swap-again/quantis with long-lived engines and ens_set dicts gives "
+                         f"[{a[:150]}], fresh objects give [{b[:150]}]", rep)
+            for r_ in (r_l, r_f):
+                if r_.get("mutated"):
+                    ctx.fail("C11:old-path-mutated-by-zero-swap", f"step {stepno}: {r_['mutated']} (C09: old path untouched)", rep)
+            hist.append(r_l)
+            if "err" in r_l or (kind == "retis" and not r_l["accept"]):
+                break
+            if kind == "retis":
+                olds = tuple(r_l["objs"])
+                cur = dict(cur, old0=r_l["path0"], old1=r_l["path1"])
+        # swap again == first swap (order values), for the steps that ran
+        if len(hist) >= 3 and all("err" not in h and h["accept"] for h in hist[:3]):
+            o = lambda p_: [f[0] for f in p_]  # noqa: E731
+            if o(hist[2]["path0"]) != o(hist[0]["path0"]) or o(hist[2]["path1"]) != o(hist[0]["path1"]):
+                ctx.fail("C11:swap-twice-not-identity", "the third swap does not reproduce the first one", rep)
+        # (b) mutate the result, look at the source: the accepted new paths of the last retis step vs its input paths
+        acc = [h for h in hist if "err" not in h and h.get("objs") and not h["same"]]
+        if acc:
+            h = acc[-1]
+            src = [p_ for p_ in h["olds"] if p_ is not None]
+            before = [snapshot(p_) for p_ in src]
+            for p_ in h["objs"]:
+                for fr in p_.phasepoints:
+                    fr.config = ("clobbered", 99)
+                    fr.vel_rev = not fr.vel_rev
+                    fr.vpot = -1.0
+                    fr.order = [1e9]
+                p_.status = "XXX"
+                del p_.phasepoints[:]
+            for p_, b4 in zip(src, before):
+                d = snapshot_diff(b4, snapshot(p_), {}, {}, "source path")
+                if d:
+                    ctx.fail("C11:new-path-aliases-old-frame", f"editing the paths a zero swap returned changed the path it was "
+                             f"given: {d} (C09)", rep)
+
+
 def strip(c):
     return {k: v for k, v in c.items() if k != "tag"}
 
@@ -1077,10 +1334,13 @@ def _run(ctx, W):
     # ------------------------------------------------------------------ retis
     cases = retis_cases(ctx)
     results = []
-    for c in cases:
+    ll = LongLived()
+    for k, c in enumerate(cases):
         fs = {}
         r = W.run(c, fs=fs)
         results.append(r)
+        if k % (9 if ctx.quick else 4) == 0:
+            ll.check(ctx, W, c, r)
         if after_rejection(ctx, W, c, r, fs):
             ctx.count(1, branch="retis:second-move-after-rejection")
     if have_model:
@@ -1116,6 +1376,8 @@ def _run(ctx, W):
             ctx.sample({"case": case_line(c), "code": cl})
     # ------------------------------------------------------------------ velocity-dependent order parameter
     vel_block(ctx, W, have_model)
+    # ------------------------------------------------------------------ long-lived objects over sequences of swaps
+    sequence_block(ctx, W)
     # ------------------------------------------------------------------ quantis
     qbase = quantis_cases(ctx)
     qcases, qres = [], []
@@ -1127,6 +1389,8 @@ def _run(ctx, W):
         qres.append(ra)
         if after_rejection(ctx, W, ca, ra, fs):
             ctx.count(1, branch="quantis:second-move-after-rejection")
+        if len(qcases) % 3 == 0:
+            ll.check(ctx, W, ca, ra)
         reached = "err" not in ra and ra["p"] is not None
         if not reached:
             cb = dict(c, aa=False)
@@ -1224,6 +1488,9 @@ def _run(ctx, W):
         "exp is outside the model: the model gets the float value np.exp returned; the harness checks the exponent exactly and the value against math.exp (rel 1e-14)",
         "membership / swap-twice predicates are evaluated for maxlen0 ≤ maxlen1 (both come from the same tis_set dict in every configuration) and MD programs that do not end before maxlen",
         "`generated`, `time_origin`, `path_number` of the new paths are not compared",
+        "object state / call history is a tie-only statement (the model is a pure function): long-lived engine objects (two objects, "
+        "or one object serving both ensembles), long-lived ens_set dicts and reused scratch-file names are compared with fresh objects "
+        "on the same input; each fresh result is what is compared with the model",
         "order values are opaque data produced by the engine in the model (ZeroSwap frames); that the order value of a vel_rev frame is the "
         "order parameter of its physical phase point (EngineBase.calculate_order uses -v for vel_rev frames: C20's theorem on the sign, C12) "
         "is checked here at run time with a VelOrderEngine that routes every frame through the REAL calculate_order with the "
